@@ -252,6 +252,25 @@ class OwnProfile(Profile):
             mid = gen_own.pick(r, others) if others and r.random() < 0.5 else None
             w.queue.append({"op": "setparent", "child": c, "parent": p0})
             return {"op": "setparent", "child": c, "parent": mid}
+        if fam == "steal":
+            # collection-side move of an indexed element: taken from a sibling owner that keeps
+            # other members (its index sees only a removal it was never asked for), or a member
+            # re-added to the collection that already owns it
+            m = w.m
+            kids = [l for l, n in m.nodes.items() if n.kind in ("bi", "cb", "db") and n.parent is not None and len(m.kids(n.parent)) >= 2]
+            c = gen_own.pick(r, kids)
+            if c is None:
+                return None
+            p0 = m.nodes[c].parent
+            field = "blocks" if m.nodes[p0].kind == "bi" else "byte_intervals"
+            sibs = [l for l in m.by_kind(m.nodes[p0].kind) if l != p0 and m.ir_of(l) == m.ir_of(p0)]
+            tgt = p0 if (not sibs or r.random() < 0.3) else gen_own.pick(r, sibs)
+            meth = r.choice(["add", "update", "ior"])
+            args = [c] if meth == "add" else [[c]]
+            op = {"op": "setop", "parent": tgt, "field": field, "method": meth, "args": args}
+            if meth == "update":
+                op["style"] = "list"
+            return op
         if fam == "attr_sym":
             return gen_own.gen_setattr(w, r, kinds=("sym",))
         if fam == "se":
@@ -453,6 +472,7 @@ INDEX_BASE = {
     "listop": 0.7,
     "attr_index": 6.0,
     "attr_roundtrip": 1.5,
+    "steal": 1.5,
     "setattr": 0.5,
     "se": 2.0,
     "persist": 0.6,
